@@ -262,8 +262,59 @@ def check_state(kind, compiled, hist, ctx):
     lib.clear_caches()
 
 
+# -- file names: "plain or gzip-compressed, chosen by the file extension" ----
+FILE_NAMES = ('m.json', 'm.JSON', 'm.gz', 'm.GZ', 'm.Gz', 'm.gzip', 'm.GZIP',
+              'm.Gzip', 'm.json.gz', 'm.JSON.GZ', 'M.Json.Gz', 'm.gz.json',
+              'm.txt', 'm', 'm.gzip.bak', 'gz', 'm.jsongz')
+
+
+def check_names(kind, compiled, ctx):
+    model = build_model(kind, compiled)
+    ev = lib.Evaluator(model)
+    if compiled:
+        for a in EVAL_CELLS:
+            lib.observe(ev.evaluate, a)
+    snap0 = snapshot(model)
+    for name in FILE_NAMES:
+        key0 = 'C12/%s/%s/file=%s' % (
+            kind, 'compiled' if compiled else 'uncompiled', name)
+        inputs = {'kind': kind, 'compiled': compiled, 'file': name,
+                  'family': 'names'}
+        ext = os.path.splitext(name)[-1].lower()
+        zipped = ext in ('.gz', '.gzip')
+        tags = ['family:file-names', 'model:' + kind,
+                'fmt:' + ('gzip' if zipped else 'plain')]
+        d = os.path.join(tmpdir(), 'names_%d' % os.getpid())
+        os.makedirs(d, exist_ok=True)
+        path = os.path.join(d, name)
+        w = lib.observe(model.persist_to_json_file, path)
+        if w != 'blank':
+            ctx.fail(key0 + '/persist', tags, inputs, 'persists', w)
+            continue
+        with open(path, 'rb') as fp:
+            magic = fp.read(2)
+        ctx.check(key0 + '/compressed',
+                  'gzip' if magic == b'\x1f\x8b' else 'plain',
+                  'gzip' if zipped else 'plain', tags, inputs)
+        r = lib.Model()
+        o = lib.observe(r.construct_from_json_file, path, True)
+        os.remove(path)
+        if o != 'blank':
+            ctx.fail(key0 + '/restore', tags, inputs, 'restores', o)
+            continue
+        ctx.count('transitions')
+        ctx.count('traces_validated_against_impl')
+        dd = diff_snap(snap0, snapshot(r))
+        if dd is None:
+            ctx.ok(key0 + '/snapshot', 'equal')
+        else:
+            ctx.fail(key0 + '/snapshot', tags + ['oracle:snapshot'], inputs,
+                     'equal', 'differs:' + dd[0], True, dd[1])
+    lib.clear_caches()
+
+
 def plan(tier):
-    shards = []
+    shards = [{'family': 'names'}]
     depth = DEPTH[tier]
     for kind in ('dict', 'xlsx'):
         n = len(alphabet(kind))
@@ -283,6 +334,12 @@ def plan(tier):
 
 
 def run_shard(shard, ctx):
+    if shard.get('family') == 'names':
+        for kind in ('dict', 'xlsx'):
+            for compiled in (False, True):
+                check_names(kind, compiled, ctx)
+        ctx.sample({'family': 'file names', 'names': list(FILE_NAMES)})
+        return
     kind, compiled = shard['kind'], shard['compiled']
     ops = alphabet(kind)
     if shard['prefix'] is None:
@@ -300,5 +357,8 @@ def run_shard(shard, ctx):
 
 
 def replay(inputs, ctx):
+    if inputs.get('family') == 'names':
+        check_names(inputs['kind'], inputs['compiled'], ctx)
+        return
     hist = [tuple(o) for o in inputs['history']]
     check_state(inputs['kind'], inputs['compiled'], hist, ctx)
